@@ -400,8 +400,11 @@ async fn run_prune(ctx: &Arc<RunCtx>) {
                         if !unsampled.is_empty() {
                             let h = unsampled[ctx.choose("daser.which", unsampled.len() as u32) as usize];
                             let was_ongoing = obs.st.lock().unwrap().ongoing.contains(&h);
+                            // the real daser never samples (so never records CIDs for) a height it has
+                            // promised to the pruner
+                            let promised = answers.get(&h) == Some(&true);
                             match ctx.choose("daser.what", 3) {
-                                0 => {
+                                0 if !promised => {
                                     // finish sampling h
                                     cid_no += 1;
                                     let c = make_cid(cid_no);
@@ -411,7 +414,8 @@ async fn run_prune(ctx: &Arc<RunCtx>) {
                                     obs.st.lock().unwrap().ongoing.remove(&h);
                                     ctx.ev("daser.sampled", h, 0);
                                 }
-                                1 if !was_ongoing && answers.get(&h) != Some(&true) => {
+                                0 => {}
+                                1 if !was_ongoing && !promised => {
                                     // start sampling h (never something already promised to the pruner)
                                     obs.st.lock().unwrap().ongoing.insert(h);
                                     ctx.ev("daser.sampling_started", h, 0);
